@@ -45,7 +45,9 @@ def sig_record(k, pre, seqs, types, accs, as_single=False, after_failure=False, 
     if after_failure:
         failing_call(kspec)
     for t in types:
-        if t == 'reused-buffer':
+        if t == 'text':
+            conv = [''.join(chr(c) for c in s) for s in seqs]          # str given as code points, some outside ASCII
+        elif t == 'reused-buffer':
             conv = list(seqs)
         else:
             conv = [TYPES[t](s) for s in seqs]
@@ -77,7 +79,7 @@ def sig_record(k, pre, seqs, types, accs, as_single=False, after_failure=False, 
                 res = e
             o = out_record(res, k)
             outs.setdefault(core.canon(o), (o, []))[1].append(f'{t}/{a}')
-    return dict(op='sig', k=k, pre=blist(pre), seqs=[blist(s) for s in seqs],
+    return dict(op='sig', k=k, pre=blist(pre), seqs=[list(s) for s in seqs], must_fail=('text' in types),
                 outs=[dict(o, variants=v) for o, v in outs.values()])
 
 
@@ -104,7 +106,7 @@ class Fam(core.Family):
     def execute(self, inp):
         if inp['op'] == 'find':
             return find_record(inp['k'], bytes(inp['pre']), bytes(inp['seqs'][0]), inp.get('typ', 'bytes'))
-        return sig_record(inp['k'], bytes(inp['pre']), [bytes(s) for s in inp['seqs']], inp['types'], inp['accs'],
+        return sig_record(inp['k'], bytes(inp['pre']), [(list(s) if inp['types'] == ['text'] else bytes(s)) for s in inp['seqs']], inp['types'], inp['accs'],
                           as_single=inp.get('single', False), after_failure=inp.get('after_failure', False),
                           prev=[bytes(p) for p in inp.get('prev', [])])
 
@@ -117,6 +119,9 @@ class Fam(core.Family):
     def corrupt(self, rec):
         if rec['op'] == 'sig':
             o = rec['outs'][0]
+            if rec.get('must_fail'):
+                o['ok'] = True                       # pretend the text was accepted
+                return rec
             if o['sig']:
                 o['sig'] = o['sig'][:-1]           # drop the last k-mer
             else:
@@ -228,6 +233,13 @@ class Random(Fam):
                 accs.append('array')
             yield dict(op='sig', k=k, pre=list(pre), seqs=seqs, types=ALLT, accs=(['default'] + accs) if i % 5 == 0 else accs, single=(i % 3 == 0),
                        after_failure=(i % 5 == 0))
+            if i % 6 == 2 and seqs and seqs[0]:
+                # str input with one symbol outside ASCII spliced in (accented letter, no-break space, look-alike letter, line separator)
+                bad = [list(x) for x in seqs]
+                pos = rng.randrange(len(bad[0]) + 1)
+                bad[0][pos:pos] = [rng.choice([0xe9, 0xa0, 0x410, 0xff21, 0x2028, 0x80])]
+                if all(c < 128 or c in (0xe9, 0xa0, 0x410, 0xff21, 0x2028, 0x80) for x in bad for c in x):
+                    yield dict(op='sig', k=k, pre=list(pre), seqs=bad, types=['text'], accs=['set', 'default'], single=(i % 2 == 0))
             if i % 4 == 1:
                 # the same mutable buffer object searched again after its contents changed in place (earlier contents: lower-case variants,
                 # other sequences of the same and of other lengths)
